@@ -31,6 +31,10 @@ func init() {
 		{Name: "x64 f32.floor rounds to nearest", File: "internal/native/wat2x64/func.go", Old: "\"    roundss xmm4, xmm4, 1\\n\"", New: "\"    roundss xmm4, xmm4, 0\\n\"", Expect: "x64-template-semantics :: f32.floor"},
 		{Name: "x64 i32.lt_s compares unsigned", File: "internal/native/wat2x64/func.go", Old: "\"    setl  al\\n\"", New: "\"    setb  al\\n\"", Expect: "x64-template-semantics :: i32.lt_s"},
 		{Name: "x64 i32.rotr rotates an undefined upper half in", File: "internal/native/wat2x64/func.go", Old: "\"    ror  eax, cl # cl 是 ecx 低8位\\n\"", New: "\"    ror  rax, cl # cl 是 ecx 低8位\\n\"", Expect: "x64-template-semantics :: i32.rotr"},
+		{Name: "x64 i64.load32_s zero-extends", File: "internal/native/wat2x64/func.go", Old: "\"    movsxd rax, dword ptr [r10%+d]\\n\"", New: "\"    mov    eax, dword ptr [r10%+d]\\n\"", Expect: "x64-memory-access-semantics :: i64.load32_s"},
+		{Name: "x64 i32.store16 writes four bytes", File: "internal/native/wat2x64/func.go", Old: "\"    mov word ptr [r10%+d], ax\\n\"", New: "\"    mov dword ptr [r10%+d], eax\\n\"", Expect: "x64-memory-access-semantics :: i32.store16"},
+		{Name: "x64 i32.load reads its address as a qword", File: "internal/native/wat2x64/func.go", Old: "\t\tfmt.Fprintf(w, \"    # i32.load\\n\")\n\t\tfmt.Fprintf(w, \"    mov rax, qword ptr [rip+%s]\\n\", kMemoryAddrName)\n\t\tfmt.Fprintf(w, \"    mov r10d, dword ptr [rbp%+d]\\n\", sp0)", New: "\t\tfmt.Fprintf(w, \"    # i32.load\\n\")\n\t\tfmt.Fprintf(w, \"    mov rax, qword ptr [rip+%s]\\n\", kMemoryAddrName)\n\t\tfmt.Fprintf(w, \"    mov r10, qword ptr [rbp%+d]\\n\", sp0)", Expect: "x64-memory-access-semantics :: i32.load"},
+		{Name: "x64 f64.store ignores the memarg offset", File: "internal/native/wat2x64/func.go", Old: "\"    movsd qword ptr [r10%+d], xmm4\\n\", i.Offset)", New: "\"    movsd qword ptr [r10%+d], xmm4\\n\", i.Offset+8)", Expect: "x64-memory-access-semantics :: f64.store"},
 		{Name: "x64 memory.init comment swallows the next instruction", File: "internal/native/wat2x64/func.go", Old: "fmt.Fprintf(w, \"    # memory.init\\n\")", New: "fmt.Fprintf(w, \"    # memory.init\")", Expect: "line-terminated :: wat2x64 wat2X64Worker.buildFunc_ins"},
 		{Name: "x64 select loses the newline after its last store", File: "internal/native/wat2x64/func.go", Old: "\t\tdefault:\n\t\t\tunreachable()\n\t\t}\n\t\tfmt.Fprintln(w)\n\n\tcase token.INS_LOCAL_GET:", New: "\t\tdefault:\n\t\t\tunreachable()\n\t\t}\n\n\tcase token.INS_LOCAL_GET:", Expect: "line-terminated :: wat2x64 wat2X64Worker.buildFunc"},
 		{Name: "loong64 table offset comment swallows the ori", File: "internal/native/wat2la/table.go", Old: "\"    lu12i.w   $t1, 0x%X # offset\\n\"", New: "\"    lu12i.w   $t1, 0x%X\\n # offset\"", Expect: "line-terminated :: wat2la wat2laWorker.buildTable"},
@@ -58,18 +62,18 @@ func init() {
 		{Name: "f64.le loses its NaN guard", File: "internal/native/wat2x64/func.go", Old: "\t\tfmt.Fprintf(w, \"    setbe   al\\n\")\n\t\tfmt.Fprintf(w, \"    setnp   cl # set if not NaN\\n\")\n\t\tfmt.Fprintf(w, \"    and     al, cl\\n\")", New: "\t\tfmt.Fprintf(w, \"    setbe   al\\n\")", Nth: 1, Expect: "float-compare-truth-table :: f64.le"},
 		{Name: "f32.ne is false on NaN", File: "internal/native/wat2x64/func.go", Old: "\t\tfmt.Fprintf(w, \"    setne   al\\n\")\n\t\tfmt.Fprintf(w, \"    setp    cl # set if NaN\\n\")\n\t\tfmt.Fprintf(w, \"    or      al, cl\\n\")", New: "\t\tfmt.Fprintf(w, \"    setne   al\\n\")", Expect: "float-compare-truth-table :: f32.ne"},
 		{Name: "linux memmove helper copies in the wrong direction", File: "internal/native/wat2x64/assets/native-env-linux-x64.s", Old: "    cmp rdi, rsi ", New: "    cmp rsi, rdi ", Expect: "memmove-direction :: internal/native/wat2x64/assets/native-env-linux-x64.s"},
-		{Name: "i64.lt_u uses the signed condition", File: f, Old: "fmt.Fprintf(w, \"    # i64.lt_u\\n\")\n\t\tfmt.Fprintf(w, \"    mov   r10, qword ptr [rbp%+d]\\n\", sp1)\n\t\tfmt.Fprintf(w, \"    mov   r11, qword ptr [rbp%+d]\\n\", sp0)\n\t\tfmt.Fprintf(w, \"    cmp   r10, r11\\n\")\n\t\tfmt.Fprintf(w, \"    setb  al\\n\")", New: "fmt.Fprintf(w, \"    # i64.lt_u\\n\")\n\t\tfmt.Fprintf(w, \"    mov   r10, qword ptr [rbp%+d]\\n\", sp1)\n\t\tfmt.Fprintf(w, \"    mov   r11, qword ptr [rbp%+d]\\n\", sp0)\n\t\tfmt.Fprintf(w, \"    cmp   r10, r11\\n\")\n\t\tfmt.Fprintf(w, \"    setl  al\\n\")", Expect: "x64-core-op :: i64.lt_u"},
-		{Name: "i32.shr_s shifts logically", File: f, Old: "sar  eax, cl", New: "shr  eax, cl", Expect: "x64-core-op :: i32.shr_s"},
-		{Name: "i32.div_u divides signed", File: f, Old: "    div  dword ptr [rbp%+d]", New: "    idiv dword ptr [rbp%+d]", Expect: "x64-core-op :: i32.div_u"},
-		{Name: "i64.sub operands swapped", File: f, Old: "fmt.Fprintf(w, \"    mov rax, qword ptr [rbp%+d]\\n\", sp1)\n\t\tfmt.Fprintf(w, \"    sub rax, qword ptr [rbp%+d]\\n\", sp0)", New: "fmt.Fprintf(w, \"    mov rax, qword ptr [rbp%+d]\\n\", sp0)\n\t\tfmt.Fprintf(w, \"    sub rax, qword ptr [rbp%+d]\\n\", sp1)", Expect: "x64-operand-order :: i64.sub"},
-		{Name: "i32.rem_s returns the quotient", File: f, Old: "    mov  dword ptr [rbp%+d], edx\\n\", ret0)", New: "    mov  dword ptr [rbp%+d], eax\\n\", ret0)", Expect: "x64-result-register :: i32.rem_s"},
+		{Name: "i64.lt_u uses the signed condition", File: f, Old: "fmt.Fprintf(w, \"    # i64.lt_u\\n\")\n\t\tfmt.Fprintf(w, \"    mov   r10, qword ptr [rbp%+d]\\n\", sp1)\n\t\tfmt.Fprintf(w, \"    mov   r11, qword ptr [rbp%+d]\\n\", sp0)\n\t\tfmt.Fprintf(w, \"    cmp   r10, r11\\n\")\n\t\tfmt.Fprintf(w, \"    setb  al\\n\")", New: "fmt.Fprintf(w, \"    # i64.lt_u\\n\")\n\t\tfmt.Fprintf(w, \"    mov   r10, qword ptr [rbp%+d]\\n\", sp1)\n\t\tfmt.Fprintf(w, \"    mov   r11, qword ptr [rbp%+d]\\n\", sp0)\n\t\tfmt.Fprintf(w, \"    cmp   r10, r11\\n\")\n\t\tfmt.Fprintf(w, \"    setl  al\\n\")", Expect: "x64-template-semantics :: i64.lt_u"},
+		{Name: "i32.shr_s shifts logically", File: f, Old: "sar  eax, cl", New: "shr  eax, cl", Expect: "x64-template-semantics :: i32.shr_s"},
+		{Name: "i32.div_u divides signed", File: f, Old: "    div  dword ptr [rbp%+d]", New: "    idiv dword ptr [rbp%+d]", Expect: "x64-template-semantics :: i32.div_u"},
+		{Name: "i64.sub operands swapped", File: f, Old: "fmt.Fprintf(w, \"    mov rax, qword ptr [rbp%+d]\\n\", sp1)\n\t\tfmt.Fprintf(w, \"    sub rax, qword ptr [rbp%+d]\\n\", sp0)", New: "fmt.Fprintf(w, \"    mov rax, qword ptr [rbp%+d]\\n\", sp0)\n\t\tfmt.Fprintf(w, \"    sub rax, qword ptr [rbp%+d]\\n\", sp1)", Expect: "x64-template-semantics :: i64.sub"},
+		{Name: "i32.rem_s returns the quotient", File: f, Old: "    mov  dword ptr [rbp%+d], edx\\n\", ret0)", New: "    mov  dword ptr [rbp%+d], eax\\n\", ret0)", Expect: "x64-template-semantics :: i32.rem_s"},
 		{Name: "f64.lt pops f32 operands", File: f, Old: "case token.INS_F64_LT:\n\t\tsp0 := p.fnWasmR0Base - 8*stk.Pop(token.F64) - 8", New: "case token.INS_F64_LT:\n\t\tsp0 := p.fnWasmR0Base - 8*stk.Pop(token.F32) - 8", Expect: "stack-effect :: wat2x64 f64.lt"},
 		{Name: "i64.extend_i32_s pushes i32", File: f, Old: "case token.INS_I64_EXTEND_I32_S:\n\t\tsp0 := p.fnWasmR0Base - 8*stk.Pop(token.I32) - 8\n\t\tret0 := p.fnWasmR0Base - 8*stk.Push(token.I64) - 8", New: "case token.INS_I64_EXTEND_I32_S:\n\t\tsp0 := p.fnWasmR0Base - 8*stk.Pop(token.I32) - 8\n\t\tret0 := p.fnWasmR0Base - 8*stk.Push(token.I32) - 8", Expect: "stack-effect :: wat2x64 i64.extend_i32_s"},
-		{Name: "i32.load8_s zero-extends", File: f, Old: "movsx eax, byte ptr [r10%+d]", New: "movzx eax, byte ptr [r10%+d]", Expect: "x64-core-op :: i32.load8_s"},
-		{Name: "i32.load16_u reads a byte", File: f, Old: "movzx eax, word ptr [r10%+d]", New: "movzx eax, byte ptr [r10%+d]", Expect: "x64-access-width :: i32.load16_u"},
-		{Name: "f64.trunc rounds to nearest", File: f, Old: "roundsd xmm4, xmm4, 3\\n", New: "roundsd xmm4, xmm4, 0\\n", Expect: "x64-rounding-mode :: f64.trunc"},
+		{Name: "i32.load8_s zero-extends", File: f, Old: "movsx eax, byte ptr [r10%+d]", New: "movzx eax, byte ptr [r10%+d]", Expect: "x64-memory-access-semantics :: i32.load8_s"},
+		{Name: "i32.load16_u reads a byte", File: f, Old: "movzx eax, word ptr [r10%+d]", New: "movzx eax, byte ptr [r10%+d]", Expect: "x64-memory-access-semantics :: i32.load16_u"},
+		{Name: "f64.trunc rounds to nearest", File: f, Old: "roundsd xmm4, xmm4, 3\\n", New: "roundsd xmm4, xmm4, 0\\n", Expect: "x64-template-semantics :: f64.trunc"},
 		{Name: "arm removed (falls to default panic)", File: f, Old: "\tcase token.INS_I64_ROTR:", New: "\tcase token.INS_I64_ROTR + 1000:", Expect: "exhaustive :: wat2x64 i64.rotr"},
-		{Name: "i64.ge_s stores a 64-bit result over the i32 slot", File: f, Old: "fmt.Fprintf(w, \"    setge al\\n\")\n\t\tfmt.Fprintf(w, \"    movzx eax, al\\n\")\n\t\tfmt.Fprintf(w, \"    mov   dword ptr [rbp%+d], eax\\n\", ret0)\n\t\tfmt.Fprintln(w)\n\n\tcase token.INS_I64_GE_U:", New: "fmt.Fprintf(w, \"    setg al\\n\")\n\t\tfmt.Fprintf(w, \"    movzx eax, al\\n\")\n\t\tfmt.Fprintf(w, \"    mov   dword ptr [rbp%+d], eax\\n\", ret0)\n\t\tfmt.Fprintln(w)\n\n\tcase token.INS_I64_GE_U:", Expect: "x64-core-op :: i64.ge_s"},
+		{Name: "i64.ge_s stores a 64-bit result over the i32 slot", File: f, Old: "fmt.Fprintf(w, \"    setge al\\n\")\n\t\tfmt.Fprintf(w, \"    movzx eax, al\\n\")\n\t\tfmt.Fprintf(w, \"    mov   dword ptr [rbp%+d], eax\\n\", ret0)\n\t\tfmt.Fprintln(w)\n\n\tcase token.INS_I64_GE_U:", New: "fmt.Fprintf(w, \"    setg al\\n\")\n\t\tfmt.Fprintf(w, \"    movzx eax, al\\n\")\n\t\tfmt.Fprintf(w, \"    mov   dword ptr [rbp%+d], eax\\n\", ret0)\n\t\tfmt.Fprintln(w)\n\n\tcase token.INS_I64_GE_U:", Expect: "x64-template-semantics :: i64.ge_s"},
 	}[1:]})
 }
 
@@ -428,8 +432,6 @@ func runC02(c *Ctx) {
 	if pk := p.Pkg("internal/native/wat2x64"); pk != nil {
 		c02MinMax(c, p, pk)
 		c02OperandSize(c, p, pk)
-		c02Conversions(c, p, pk)
-		c02TemplateSemantics(c, p, pk)
 	}
 	c02Locals(c, p)
 	if pk := p.Pkg("internal/native/wat2x64"); pk != nil {
@@ -466,6 +468,22 @@ func runC02(c *Ctx) {
 	}
 	c.Min("sibling-agreement", "pairs", nsib, 400)
 
+	// the numeric arms are decided by interpretation first (c02_x64sim.go); for an arm that interpretation decides, the
+	// shape rules below (which instruction, which operand first, which register holds the result) are not applied:
+	// they are proxies that an equivalent instruction sequence would trip, and the interpretation sees the result itself
+	semDecided := map[string]bool{}
+	if pk := p.Pkg("internal/native/wat2x64"); pk != nil {
+		for m := range c02TemplateSemantics(c, p, pk) {
+			semDecided[m] = true
+		}
+		for m := range c02Conversions(c, p, pk) {
+			semDecided[m] = true
+		}
+		for m := range c02MemoryAccess(c, p, pk) {
+			semDecided[m] = true
+		}
+	}
+	shapeRule := map[string]bool{"x64-access-width": true, "x64-core-op": true, "x64-operand-order": true, "x64-slot-width": true, "x64-result-register": true, "x64-rounding-mode": true}
 	// x64 template content rules
 	emittable := emittableMnemonics(c)
 	ncore, ndormant := 0, 0
@@ -486,6 +504,12 @@ func runC02(c *Ctx) {
 		// A template for an instruction no Wa program can contain (the compiler back end and the runtime sources never
 		// emit it) cannot break the property: its discrepancies are reported as notes, not violations.
 		chk := func(cond bool, rule, construct, loc, okd, bad string) {
+			if semDecided[m] && shapeRule[rule] {
+				if !cond {
+					c.Note("shape rule [%s] not applied to %s (the arm is decided by interpretation): %s", rule, construct, bad)
+				}
+				return
+			}
 			if !cond && dormant {
 				c.Note("dormant template (%s is never emitted by the Wa compiler or runtime): [%s] %s: %s", m, rule, construct, bad)
 				return
